@@ -8,6 +8,9 @@
 //	    x estimate state x report state, built with the real queue / estimate
 //	    election / report handlers, queried with GetMessagesForRelaying and the
 //	    gRPC QueuedMessagesForRelaying for every validator;
+//	(d) assignment on the retry path: the message of a request is failed through
+//	    the real relay lifecycle; each re-enqueued message is judged like a first
+//	    assignment;
 //	(c) fees: relayer multiplier x elected gas x community rate x security rate
 //	    through the real election (3 estimates + the module manager's EndBlock)
 //	    against big.Rat ceilings.
@@ -191,6 +194,7 @@ type replayRec struct {
 	A    *caseA `json:"a,omitempty"`
 	B    []int  `json:"b,omitempty"`
 	C    *caseC `json:"c,omitempty"`
+	D    *caseD `json:"d,omitempty"`
 }
 
 func main() {
@@ -216,7 +220,9 @@ func run(r *report.Run, shard, nshards int, replayFile string) {
 	e.deadline = r.Deadline(150*time.Second, 27*time.Minute)
 	r.Rule = "(a) every table of 3 validators x {in snapshot, account on target chain in the snapshot entry, relayer fee none/0.5/1.0, metrics record, MEV trait} (48^3 tables) x job MEV requirement x consecutive block times, written into a fork of the prepared state with keeper APIs, request = signed MsgExecuteJob; " +
 		"(b) every queue of <=3 messages over {SubmitLogicCall of S1/S2, UpdateValset} x assignee {v0,v1} x estimate state x report {none, public access data, error data}, built with PutMessageInQueue + estimate txs + CheckAndProcessEstimatedMessages + report txs, queried for v0, v1 (and v2, never an assignee, in the thorough tier); " +
-		"(c) relayer multiplier x elected gas x community rate x security rate through 3 estimate txs + ModuleManager.EndBlock; one evaluation = one (table, requirement, time) request / one (queue, caller) query / one election"
+		"(c) relayer multiplier x elected gas x community rate x security rate through 3 estimate txs + ModuleManager.EndBlock; " +
+		"(d) retry path: tables over the rows missing at most one condition x MEV requirement x start time; the request's message is failed through the real lifecycle (estimate txs, end-block election, signature txs, error-data tx, SmartContractExecutionErrorProof evidence txs, end-block attestation) three times and every re-enqueued message is judged like a first assignment (assignee eligible, snapshot address, requirement carried, call byte-identical apart from the retry counter), nothing enqueued after the second retry; " +
+		"one evaluation = one (table, requirement, time) request (with its whole retry lifecycle in d) / one (queue, caller) query / one election"
 	r.Assumptions = []string{
 		"(b) 'an older message from the same sender is still pending' is read as 'has no public-access (delivery) or error report yet'; the stronger reading (still in the queue, i.e. not yet attested) would flag the present, intended behaviour",
 		"(b) 'pending validator-set update' is read as the code does: any UpdateValset message still in the chain's queue (reported or not); a message is blocked iff its id is greater than the id of the oldest such update",
@@ -252,6 +258,8 @@ func run(r *report.Run, shard, nshards int, replayFile string) {
 			e.replayB(rec.B)
 		case "c":
 			e.replayC(*rec.C)
+		case "d":
+			e.replayD(*rec.D)
 		default:
 			fmt.Fprintln(os.Stderr, "unknown replay part", rec.Part)
 			os.Exit(2)
@@ -262,6 +270,9 @@ func run(r *report.Run, shard, nshards int, replayFile string) {
 	only := os.Getenv("C14_PART") // development aid: run one part only
 	if only == "" || only == "c" {
 		e.partC(shard, nshards)
+	}
+	if only == "" || only == "d" {
+		e.partD(shard, nshards)
 	}
 	if only == "" || only == "b" {
 		e.partB(shard, nshards)
